@@ -65,7 +65,7 @@ class C04(PropBase):
                 cases.extend({"g": g, "a": a, "b": b, "C": C} for a, b, C in triples)
         nmax = 6 if tier == "quick" else 7
         while len(cases) < n:
-            g = GG.rand_admg(rng, 2, nmax)
+            g = GG.rand_admg_big(rng) if rng.random() < 0.04 else GG.rand_admg(rng, 2, nmax)
             ns = g["nodes"]
             for _ in range(14):
                 a, b = rng.sample(ns, 2)
